@@ -26,6 +26,9 @@ Regions (known findings; switched on by known_findings.json):
   C09-hash-comment        `#` outside quotes starts a shlex comment
   C09-unicode-space       U+00A0 (and other str.isspace() characters that are no separators) as a token
   C09-concat-quote-type   a token that mixes hard-quoted and other fragments and contains a reference
+  C09-shlex-eof-state     raw-line consumption (here-document, `:>`) where a look-ahead token that starts inside
+                          the raw lines is closed by the very last character of the source: shlex stays in its
+                          end-of-file state and the tokens after the raw lines are not seen
 """
 from typing import List
 
@@ -38,6 +41,7 @@ PROPERTY = 'C09'
 REGION_HASH = 'C09-hash-comment'  # `#` outside quotes starts a comment (shlex default commenters)
 REGION_USPACE = 'C09-unicode-space'  # characters that are str.isspace() but no argument separator
 REGION_MIXED = 'C09-concat-quote-type'  # quote type of a concatenated token = that of its first character
+REGION_EOF = 'C09-shlex-eof-state'  # a look-ahead token read from inside raw lines that ends exactly at end of source
 
 STUB_IO = ('io.StringIO as seen by token_stream -> harness._C09_io.CharsStringIO = vsym.stubs.SymStringIO (pure Python; '
            'read/readline/tell/seek on character offsets, no newline translation); read(1) on a text built by the harness '
@@ -640,6 +644,53 @@ def _after_token_ok(ts, s: str, toks, err, k: int, end_prev: int) -> bool:
     return st is LookAheadState.SYNTAX_ERROR and pos <= err
 
 
+def _lookahead_runs_to_end(s: str, starts, base: int) -> bool:
+    """Region C09-shlex-eof-state, stated on the input alone: text follows the raw lines (base < len(s)), and
+    a token read from one of the offsets `starts` - the places inside the raw lines from which the stream
+    reads its look-ahead token - begins before `base` and ends exactly at the end of the source."""
+    if base >= len(s):
+        return False
+    for p in starts:
+        if p < base:
+            span = ref.first_token_span(s, p)
+            if span is not None and span[0] < base and span[1] == len(s):
+                return True
+    return False
+
+
+def _continues_ok(ts, s: str, base: int) -> bool:
+    """The stream stands at offset `base` after a raw-line consumption (here-document, text until end of
+    line): the look-ahead token and every token consumed from here on must be exactly the tokens of
+    s[base:] - raw-line consumption and token look-ahead share one stream, nothing that follows may be
+    swallowed, split or spoilt by what the look-ahead met inside the raw lines."""
+    from exactly_lib.section_document.element_parsers.token_stream import LookAheadState, TokenSyntaxError
+    toks, err = ref.tokenize(s[base:])
+    end_prev = base
+    for t in toks:
+        pos = ts.position
+        if pos < end_prev or pos > base + t.start or '\n' in s[end_prev:pos]:
+            return False
+        if ts.look_ahead_state is not LookAheadState.HAS_TOKEN:
+            return False
+        h = ts.head
+        if h.string != t.string or h.source_string != s[base + t.start:base + t.end]:
+            return False
+        ts.consume()
+        end_prev = base + t.end
+    pos = ts.position
+    if pos < end_prev or '\n' in s[end_prev:pos] or ts.remaining_source != s[pos:]:
+        return False
+    if err is None:
+        return ts.look_ahead_state is LookAheadState.NULL
+    if ts.look_ahead_state is not LookAheadState.SYNTAX_ERROR or pos > base + err:
+        return False
+    try:
+        ts.consume()
+    except TokenSyntaxError:
+        return True
+    return False
+
+
 SPECIAL_WORDS = ref.RESERVED + ('\\', ':>')
 
 
@@ -828,6 +879,22 @@ def _pre_k4(h: str, va: str, vb: str) -> bool:
     # region: a `#` outside quotes on the line of the start marker
     if ob.excluded(REGION_HASH) and ref.has_unquoted(s[:_line_end(s, 0)], '#'):
         return False
+    if ob.excluded(REGION_EOF):
+        # the look-ahead is read after the start marker and at the end of every non-blank raw line
+        e0 = _line_end(s, 0)
+        starts = [e0]
+        base = -1
+        p = e0 + 1
+        while p < len(s) and base == -1:
+            e = _line_end(s, p)
+            line = s[p:e]
+            if line == K4_MARKER:
+                base = e
+            elif line.strip(ref.WS) != '':
+                starts.append(e)
+            p = e + 1
+        if base != -1 and _lookahead_runs_to_end(s, starts, base):
+            return False
     return True
 
 
@@ -876,7 +943,10 @@ def _k4_check(s: str, va: str, vb: str) -> bool:
     # the parser stops at the end of the line with the end marker; what follows is untouched
     if ts.position != offs[idx] or ts.remaining_source != s[offs[idx]:]:
         return False
-    return ts.remaining_part_of_current_line == ''
+    if ts.remaining_part_of_current_line != '':
+        return False
+    # ... and is still read correctly through the same stream (`)`, `&&`, options, the next line)
+    return _continues_ok(ts, s, offs[idx])
 
 
 def k4_heredoc(h: str, va: str, vb: str) -> bool:
@@ -893,6 +963,8 @@ K4_QUICK = [
     '<<E\n$$\nE\n$', '<<E\n$\n$\nE', '<<E\n$@[A]@\nE',
     '<<E~\n$\nE~$', '<<E \n"$\n$"\nE\n', '<<E\n$\n \nE\n\na', '<<E $$\nE\n',
     ('<<E\n@[A]@$\nE', dict(symvalues=(1, 1))),
+    # a fixed continuation of the instruction after the end marker, read through the same stream
+    '<<E\n$$\nE\n) || -x\nb',
 ]
 K4_THOROUGH = [
     '<<E\n$$$$', '<<E\n@[A]@$\n$E\n$', '<<E\n$$\n$\nE\n', '<<E\n$\n$\n$E\n',
@@ -1067,7 +1139,9 @@ def _k5_text_check(s: str, va: str, vb: str) -> bool:
     sdv = parse_rich_string.RichStringParser().parse_from_token_parser(tp)
     if not _sdv_agrees(sdv, _merge(ref.split_refs(text)), va, vb):
         return False
-    return ts.position == e0 and ts.remaining_source == s[e0:]
+    if not (ts.position == e0 and ts.remaining_source == s[e0:]):
+        return False
+    return _continues_ok(ts, s, e0)
 
 
 def _pre_k5t(h: str, va: str, vb: str) -> bool:
@@ -1078,6 +1152,10 @@ def _pre_k5t(h: str, va: str, vb: str) -> bool:
     # region: only a `#` glued to the `:>` marker matters (the text itself is not tokenized)
     if ob.excluded(REGION_HASH) and ref.has_unquoted(s[:s.find(':>') + 3], '#'):
         return False
+    if ob.excluded(REGION_EOF):
+        i = s.find(':>')
+        if _lookahead_runs_to_end(s, [i + 2], _line_end(s, i + 2)):
+            return False
     return True
 
 
@@ -1099,6 +1177,7 @@ K5L_THOROUGH = ['!!!!', 'a \\\n!!~!', 'a !!\n!!', '! \\\n!! !', '@[L]@ "!@[A]@" 
 K5T_QUICK = [
     ':>***', ':> *\n*', ':>~@[A]@*~', ':>*"*\n"', ' :> *a* \na',
     (':> @[A]@*', dict(symvalues=(2, 0))),
+    ':> **\n) || -x',
 ]
 K5T_THOROUGH = [':> **\n*', ':>~@[A]@*~*', ':>*****', ':> *@[A]@*@[B]@\n*']
 
@@ -1120,6 +1199,119 @@ def _k5_obligations(tier: str) -> List[Ob]:
     return obs
 
 
+# =========================================================================== K6  quoted words are never syntax
+
+REAL_K6W = (
+    'exactly_lib.util.parse.token_matchers.is_option',
+    'exactly_lib.util.parse.token_matchers.is_unquoted_and_equals',
+    'exactly_lib.util.parse.token_matchers.is_unquoted_and_equals_any',
+    'exactly_lib.util.parse.token_matchers._Equals.matches',
+    'exactly_lib.util.parse.token_matchers._IsUnquotedAndEqualsAny.matches',
+    'exactly_lib.util.parse.token.Token',
+    'exactly_lib.util.cli_syntax.option_parsing.matches',
+    'exactly_lib.definitions.test_case.reserved_tokens',
+    'exactly_lib.section_document.element_parsers.misc_utils.is_option_token',
+    'exactly_lib.impls.types.string_.parse_rich_string.HereDocArgTokenMatcher.matches',
+    'exactly_lib.section_document.element_parsers.token_stream_parser.TokenParser.head_is_unquoted_and_equals',
+    'exactly_lib.section_document.element_parsers.token_stream_parser.TokenParser.has_valid_head_matching',
+    'exactly_lib.section_document.element_parsers.token_stream_parser.TokenParser.has_valid_head_matching__consume',
+    'exactly_lib.section_document.element_parsers.token_stream_parser.TokenParser.'
+    'consume_and_return_true_if_first_argument_is_unquoted_and_equals',
+    'exactly_lib.section_document.element_parsers.token_stream_parser.TokenParser.'
+    'consume_optional_constant_string_that_must_be_unquoted_and_equal',
+    'exactly_lib.section_document.element_parsers.token_stream_parser.TokenParser.'
+    'consume_mandatory_constant_string_that_must_be_unquoted_and_equal',
+    'exactly_lib.section_document.element_parsers.token_stream_parser.TokenParser.consume_mandatory_unquoted_string',
+    'exactly_lib.section_document.element_parsers.token_stream_parser.TokenParser.consume_mandatory_keyword',
+    'exactly_lib.section_document.element_parsers.token_stream_parser.TokenParser.parse_optional_command',
+    'exactly_lib.section_document.element_parsers.token_stream_parser.TokenParser.parse_mandatory_command',
+    'exactly_lib.section_document.element_parsers.token_stream_parser.TokenParser.head_matches',
+    'exactly_lib.section_document.element_parsers.token_stream_parser.TokenParser.consume_optional_option',
+    'exactly_lib.section_document.element_parsers.token_stream_parser.TokenParser.consume_and_handle_first_matching_option',
+    'exactly_lib.section_document.element_parsers.token_stream_parser.TokenParser.consume_and_handle_first_matching_option_2',
+    'exactly_lib.section_document.element_parsers.token_stream_parser.TokenParser.parse_mandatory_option',
+    'exactly_lib.section_document.element_parsers.token_stream_parser.TokenParser.'
+    'consume_optional_option_with_mandatory_argument',
+)
+REAL_K6P = (
+    'exactly_lib.util.parse.token_matchers.is_option',
+    'exactly_lib.util.parse.token_matchers._Equals.matches',
+    'exactly_lib.section_document.element_parsers.token_stream_parsing.parse_mandatory_choice_with_default',
+    'exactly_lib.section_document.element_parsers.token_stream_parsing.parse_mandatory_choice_with_default2',
+    'exactly_lib.section_document.element_parsers.token_stream_parsing.parse_mandatory_choice',
+    'exactly_lib.section_document.element_parsers.token_stream_parsing.parse_optional_choice_with_default',
+    'exactly_lib.impls.types.string_source.parse._StringSourceParserWoParens',
+    'exactly_lib.impls.types.program.parse.parse_arguments._ElementParser',
+    'exactly_lib.impls.types.program.parse.parse_executable_file_path._Parser',
+    'exactly_lib.impls.types.string_transformer.impl.case_converters',
+    'exactly_lib.impls.types.string_transformer.impl.strip_space',
+    'exactly_lib.impls.types.string_transformer.impl.filter.parse',
+    'exactly_lib.impls.types.string_.parse_rich_string.SymbolNameOrStringRichStringParser.parse_from_token_parser',
+)
+
+
+def _pre_k6w(w: int, q: int) -> bool:
+    from harness import _C09_k6 as k6
+    return 0 <= w < len(k6.WORDS) and 0 <= q <= 2
+
+
+def k6_words(w: int, q: int) -> bool:
+    """
+    pre: _pre_k6w(w, q)
+    post: _
+    """
+    from harness import _C09_k6 as k6
+    wi = ob.concrete_int(w, 0, len(k6.WORDS) - 1)
+    qi = ob.concrete_int(q, 0, 2)
+    with k6.untraced():
+        r = k6.recognizers_ok(k6.WORDS[wi], qi, bool(ob.case().get('oracle_bug')))
+    return ob.post(r)
+
+
+def _pre_k6p(w: int, q: int) -> bool:
+    from harness import _C09_k6 as k6
+    return 0 <= w < k6.N_WORDS[ob.case()['position']] and 0 <= q <= 2
+
+
+def k6_position(w: int, q: int) -> bool:
+    """
+    pre: _pre_k6p(w, q)
+    post: _
+    """
+    from harness import _C09_k6 as k6
+    name = ob.case()['position']
+    wi = ob.concrete_int(w, 0, k6.N_WORDS[name] - 1)
+    qi = ob.concrete_int(q, 0, 2)
+    with k6.untraced():
+        r = k6.position_ok(name, wi, qi, bool(ob.case().get('oracle_bug')))
+    return ob.post(r)
+
+
+def _k6_obligations(tier: str) -> List[Ob]:
+    from harness import _C09_k6 as k6
+    quotings = 'quoting in {naked, soft-quoted, hard-quoted}'
+    obs = [Ob(name='K6:words', fn='k6_words', case=dict(), kernel='K6', selector=True,
+              bound='every word of the catalogue %s x %s, followed by a token `t`: every token matcher / TokenParser '
+                    'keyword and option method' % (', '.join('`%s`' % x for x in k6.WORDS), quotings),
+              timeout=300, real=REAL_K6W, entry='new_token_parser(source) + TokenParser / token_matchers',
+              outside=('a syntax word written partly quoted (`-contents"-of"`): whether it is unquoted is undocumented',))]
+    for name in k6.POSITION_NAMES:
+        obs.append(Ob(name='K6:pos:' + name, fn='k6_position', case=dict(position=name), kernel='K6', selector=True,
+                      bound='position %s: every word of {%s} x %s; the quoted word is parsed like any other quoted word, '
+                            'denotes the word itself and leaves what follows untouched; the naked word is not read as a '
+                            'string' % (name, ', '.join(k6.position_words(name)), quotings),
+                      timeout=300, real=REAL_K6P, entry='the real parser of the position on new_token_parser(source)',
+                      outside=('values that need a directory structure or a process (only their parse is observed)',)))
+    obs.append(Ob(name='K6:words:seeded-oracle-error', fn='k6_words', case=dict(oracle_bug=True), kernel='K6',
+                  bound='seeded oracle error: soft quotes do not protect a syntax word', timeout=300,
+                  expect=ob.REFUTE, real=REAL_K6W, selector=True))
+    obs.append(Ob(name='K6:pos:seeded-oracle-error', fn='k6_position',
+                  case=dict(position='string-source', oracle_bug=True), kernel='K6',
+                  bound='seeded oracle error: the naked option is read like any other word', timeout=300,
+                  expect=ob.REFUTE, real=REAL_K6P, selector=True))
+    return obs
+
+
 # =========================================================================== obligations
 
 def obligations(tier: str) -> List[Ob]:
@@ -1129,6 +1321,7 @@ def obligations(tier: str) -> List[Ob]:
     obs += _k3_obligations(tier)
     obs += _k4_obligations(tier)
     obs += _k5_obligations(tier)
+    obs += _k6_obligations(tier)
     return obs
 
 
